@@ -23,8 +23,11 @@ def main(argv=None):
     prop = a.prop.upper()
     try:
         from . import build, common
-        variant_tag = "%s-plain" % prop
+        variant_tag = "%s-plain-%d" % (prop, os.getpid())
         path = build.build("plain", tag=variant_tag)
+        import atexit
+        import shutil
+        atexit.register(shutil.rmtree, path, True)
         build.activate(path)
         modname = "vf.%s" % prop.lower()
         mod = importlib.import_module(modname)
